@@ -17,12 +17,16 @@ for _p in ['C%02d' % i for i in range(3, 21)]:
 
 CLAIMS = {
     'C03': {
-        'text': 'Quorum arithmetic used by certificate creation: Fraction::is_met is exact integer comparison (no overflow, u128), the 60%/80% constants and EpochInfo::is_quorum/is_strong_quorum mean exactly >=60% / >=80% of total stake, for all u64 stakes. (Certificate construction itself: being built.)',
-        'note': 'Verus+z3 trusted; NonZeroU64 modelled by a same-named stand-in struct; derive(Clone,Copy) semantics; debug_assert dropped.',
+        'text': 'Unbounded proof (any validator count, stakes, vote history) on the real bodies of SlotState::add_vote / count_notar_stake / count_notar_fallback_stake / count_skip_stake / count_finalize_stake / add_cert and the quorum arithmetic: from any state satisfying the representation invariant wf() (every counter equals the stake sum of the stored votes of its class), accepting an admissible vote returns a certificate of each type exactly when the stored votes reach its threshold (60%, 80% fast-final, exact u128 arithmetic) and none of that type (per block for notar-fallback) is held; each returned certificate is built from exactly the stored matching votes (signer set == validators with a stored matching vote, halves of mixed certificates disjoint, slot/hash of the vote), so its recomputed stake meets the threshold; constructors are called only with non-empty, same-slot/hash, distinct in-range signers (no panic).',
+        'note': 'Assumed (listed in evidence): Cert constructors (BLS aggregation + iterator chains) build a cert whose signer set is the set of the given votes signers; SlotVotes::*_votes iterator helpers return the stored matching votes in index order; SortedVecMap/Set, SmallVec behave as map/set/sequence; derive(Clone/Eq/Ord) and derive_more Add/AddAssign semantics; EpochInfo.total_stake is the sum of the validators stakes, > 0; 64-bit usize. That the aggregate signature verifies is BLS algebra in blst (not covered). Receiver-side acceptance is C09. Pool-level composition (add_valid_cert after add_vote) is not yet under contract.',
+    },
+    'C04': {
+        'text': 'Unbounded proof on the real bodies of SlotState::check_slashable_offence, should_ignore_vote and add_vote: a vote is reported slashable iff some stored vote of the same validator forms one of the statement\'s symmetric slashable pairs with it (and the reported offence is such a pair, naming that validator and slot); a repeat (same vote, notar+notar-fallback for one block, skip+skip-fallback) is always refused; nothing is refused unless it is a repeat or a conflict, so the legitimate combinations are never refused (lemma); pair relations are symmetric (order-free, lemma); an admitted vote is stored for exactly its signer and class and every stake counter again equals the sum over stored votes (each validator once per class), with no u64 overflow.',
+        'note': 'Same trusted base as C03. The order "slashable check before duplicate filter" and the slot-window bounds live in PoolImpl::add_vote (pool.rs), not yet under contract.',
     },
     'C06': {
-        'text': 'Quorum arithmetic used by the safe-to-notar / safe-to-skip predicates: 20/40/60% thresholds are exact for all u64 stakes. (Event logic: being built.)',
-        'note': 'as C03',
+        'text': 'Unbounded proof on the real bodies of SlotState::check_safe_to_notar, is_notar_fallback_or_stronger, count_notar_stake, count_skip_stake, add_vote, notify_parent_known, notify_parent_certified: check_safe_to_notar answers SafeToNotar exactly when the statement\'s condition holds (own vote exists and is not notar(b); notar(b) >= 40% or >= 20% with skip+notar(b) >= 60%; parent Certified) and then records b as signalled; every SafeToNotar / SafeToSkip event any of these functions emits satisfies the statement\'s condition in the resulting state, was not signalled before, and no event is emitted twice in one call; a parent-certified notification raises the event in the same call whenever the condition then holds; the own notar vote is visible to the safe-to-skip test of the same call.',
+        'note': 'Same trusted base as C03. Completeness ("as soon as") is proved for the parent-certified trigger and for the own-notar/safe-to-skip ordering; the general pending-set completeness invariant and the pool-level wiring (add_block, add_valid_cert, waiting-children map) are not yet under contract.',
     },
     'C09': {
         'text': 'Threshold arithmetic used by certificate validation is exact for all u64 stakes. (Validation logic: being built.)',
